@@ -123,8 +123,10 @@ def main(tier):
             g = dict(inst["g"])
             g["mustRun"] = inst["mustRun"]
             jobs = 1 + (k % 2)
+            # (every 5th instance without --at-least is run in a git-managed project all the same: cached results then carry
+            # commits, and uncached experiments may carry history that must not be used)
             scn = RC.scenario_from_graph(g, placement=k, jobs=jobs, git_tpl=tpl,
-                                         sched={"mode": "script", "choices": []})
+                                         sched={"mode": "script", "choices": []}, force_git=(k % 5 == 1 and not g.get("again")))
             if k % 4 in (1, 2) and k % 3 == 0:
                 RC.rename_local(scn)      # the same bare name in several packages (//p:u1, //:u1)
             scns.append(scn)
